@@ -213,5 +213,47 @@ def run():
   return {'changed': changed, 'sidecar': sidecar}
 
 
+def run_fn():
+  """T-FN: which tests `_function_to_json` uses to decide "by code" (lean/PgGen/C05Fn.lean)."""
+  _, tree = common.parse_source(JSON_CONVERSION)
+  fn = None
+  for n in tree.body:
+    if isinstance(n, ast.FunctionDef) and n.name == '_function_to_json':
+      fn = n
+  if fn is None:
+    raise TranslatorError('_function_to_json not found')
+  body = [s for s in fn.body if not (isinstance(s, ast.Expr) and isinstance(s.value, ast.Constant))]
+  if len(body) != 2 or not isinstance(body[0], ast.If) or not isinstance(body[1], ast.Return):
+    raise TranslatorError('_function_to_json: expected `if <tests>: return {... code ...}` then `return {... name ...}`')
+  first, second = body[0], body[1]
+  if not (len(first.body) >= 1 and isinstance(first.body[-1], ast.Return) and "'code'" in _src(first.body[-1])
+          and "'code'" not in _src(second)):
+    raise TranslatorError('_function_to_json: the branches are not (by code, by name)')
+  test = first.test
+  disjuncts = test.values if isinstance(test, ast.BoolOp) and isinstance(test.op, ast.Or) else [test]
+  lam = nested = False
+  for d in disjuncts:
+    text = _src(d)
+    if isinstance(d, ast.Compare) and '<lambda>' in text and '__name__' in text and isinstance(d.ops[0], ast.Eq):
+      lam = True
+    elif 'co_flags' in text and 'CO_NESTED' in text and isinstance(d, ast.BinOp) and isinstance(d.op, ast.BitAnd):
+      nested = True
+    else:
+      raise TranslatorError(f'_function_to_json: unrecognised test {text!r}')
+  text = '\n'.join([
+      '/- GENERATED by translate/t_c05.py (run_fn) from ' + JSON_CONVERSION + '. Do not edit. -/',
+      'import PgModel.C05Fn',
+      'namespace Pg.C05',
+      '',
+      '/-- The tests of `_function_to_json` that send a function to the "by code" branch. -/',
+      'def fnTests : FnTests := ⟨%s, %s⟩' % (common.lean_bool(lam), common.lean_bool(nested)),
+      '',
+      'end Pg.C05', ''])
+  sidecar = {'sources': {JSON_CONVERSION: common.sha(JSON_CONVERSION)}, 'lambda_name_test': lam, 'co_nested_test': nested}
+  changed = common.write_gen('C05Fn', text, sidecar)
+  return {'changed': changed, 'sidecar': sidecar}
+
+
 if __name__ == '__main__':
   print(run())
+  print(run_fn())
